@@ -770,6 +770,7 @@ type vtimer struct {
 	ch       chan time.Time // registered cap-1 channel, may be nil for AfterFunc/Sleep
 	fn       func()
 	sleeper  *G
+	conn     *Conn // write deadline of a connection
 }
 
 var epoch = time.Date(2026, 1, 1, 0, 0, 0, 0, time.UTC)
@@ -911,8 +912,16 @@ func (s *Sched) transitionsOf(g *G) []trans {
 	}
 	one := []trans{{g: g}}
 	switch o.kind {
-	case opStart, opYield, opTouch, opClose, opWGAdd, opTryLock, opTryRLock, opUnlock, opRUnlock, opWrite, opConnClose, opCondSignal, opAtomic:
+	case opStart, opYield, opTouch, opClose, opWGAdd, opTryLock, opTryRLock, opUnlock, opRUnlock, opConnClose, opCondSignal, opAtomic:
 		return one
+	case opWrite:
+		c := o.conn
+		if c.writer != nil && c.writer != g {
+			return nil
+		}
+		if c.closed || c.peer.closed || c.wexpired || c.peer.RecvBuf == 0 || len(c.peer.in) < c.peer.RecvBuf || len(o.buf) == 0 {
+			return one
+		}
 	case opMapOrder:
 		n := o.n
 		k := n + 1
@@ -1172,13 +1181,24 @@ func (s *Sched) perform(t trans) []*G {
 		switch {
 		case c.closed:
 			o.rerr = errClosedConn
+		case c.wexpired:
+			o.rerr = timeoutError{}
 		case c.peer.closed:
 			o.rerr = errPipe
 		default:
-			c.peer.in = append(c.peer.in, o.buf...)
+			n := len(o.buf)
+			if lim := c.peer.RecvBuf; lim > 0 && n > lim-len(c.peer.in) {
+				n = lim - len(c.peer.in)
+			}
+			c.peer.in = append(c.peer.in, o.buf[:n]...)
 			c.peer.nops++
-			o.rn = len(o.buf)
-			c.Written = append(c.Written, append([]byte(nil), o.buf...))
+			o.rn = n
+			c.Written = append(c.Written, append([]byte(nil), o.buf[:n]...))
+		}
+		if o.rerr == nil && o.rn < len(o.buf) {
+			c.writer = g
+		} else {
+			c.writer = nil
 		}
 		g.note(s, fmt.Sprintf("write:%s=%d@%d", c.id, o.rn, c.nops))
 	case opConnClose:
@@ -1330,7 +1350,7 @@ func valStr(v interface{}) string {
 }
 
 func (s *Sched) fire(t *vtimer) []*G {
-	if t.sleeper == nil {
+	if t.sleeper == nil && t.conn == nil {
 		s.fired++
 	}
 	if t.deadline > s.now {
@@ -1344,6 +1364,12 @@ func (s *Sched) fire(t *vtimer) []*G {
 	if t.sleeper != nil {
 		t.sleeper.note(s, "wake:"+t.id)
 		return []*G{t.sleeper}
+	}
+	if t.conn != nil {
+		// the write deadline of a connection has passed: a blocked Write becomes enabled (and fails)
+		t.conn.wexpired = true
+		t.conn.nops++
+		return nil
 	}
 	if t.fn != nil {
 		// AfterFunc: run fn as a new goroutine spawned by the environment
@@ -1477,7 +1503,7 @@ func Run(cfg Config, body func()) *Sched {
 		{
 			var best *vtimer
 			for _, t := range s.timers {
-				if !t.active || (t.sleeper == nil && s.fired >= s.Cfg.TimerBudget) {
+				if !t.active || (t.sleeper == nil && t.conn == nil && s.fired >= s.Cfg.TimerBudget) {
 					continue
 				}
 				if nG == 0 {
